@@ -198,7 +198,13 @@ fn worker_thread(prop: &'static dyn Prop, tier: Tier, seed: u64, t: usize, nthre
     }
 
     // 3. random search with shrinking
-    let total = prop.cases(tier, dev);
+    // the quick tier is fixed work sized to a few seconds per property on 16 cores
+    let quick_scale: u64 = match prop.id() {
+        "C03" => 1,
+        "C01" | "C09" | "C15" => 4,
+        _ => 8,
+    };
+    let total = prop.cases(tier, dev) * if tier == Tier::Quick { quick_scale } else { 1 };
     let cases = (total / nthreads as u64) + if (t as u64) < total % nthreads as u64 { 1 } else { 0 };
     if cases == 0 {
         return stats;
@@ -435,7 +441,7 @@ pub fn parent_main(prop: &'static dyn Prop, tier: Tier, seed: u64) -> i32 {
         children.push(Child { profile: p, child, out });
     }
     let limit = Duration::from_secs(match tier {
-        Tier::Quick => 1500,
+        Tier::Quick => 900,
         Tier::Thorough => 4 * 3600,
     });
     let mut results: Vec<(&'static str, Value)> = Vec::new();
